@@ -1007,6 +1007,8 @@ class SymExec:
                 return obj.last
         if isinstance(obj, Sym):
             return Sym(f"{obj.name}[{_short(idx)}]")
+        if isinstance(obj, Tup | Const) and isinstance(idx, Sym | Lin | Str):
+            return Lookup(obj, idx)
         return Unknown(f"subscript {norm(node)}")
 
     def get_slice(self, st, obj, lo, hi, step, node):
@@ -1335,6 +1337,16 @@ class Str:
 
     def __hash__(self):
         return hash(repr(self))
+
+
+class Lookup:
+    """table[idx] with a constant table and a symbolic index."""
+
+    def __init__(self, table, idx):
+        self.table, self.idx = table, idx
+
+    def __repr__(self):
+        return f"{self.table!r}[{self.idx!r}]"
 
 
 class Join:
